@@ -23,6 +23,13 @@ EXTENDS Term, TLC, FiniteSets
 
 NoLen == -1
 
+(* Draw-target names shared with the api driver.  `pipe` is a console::Term over a pipe; `stderr_* / stdout_* / default_*` are the  *)
+(* process's own streams (ProgressDrawTarget::stderr(), stdout(), and the target that ProgressBar::new / new_spinner / no_length / *)
+(* MultiProgress::new pick themselves) with file descriptors 1 and 2 replaced by a pipe (not a tty) or by a pseudo-terminal.        *)
+HiddenTargets == {"hidden", "pipe", "stderr_pipe", "stdout_pipe", "default_pipe"}
+PtyTargets == {"pty", "stderr_pty", "stdout_pty", "default_pty"}
+VisibleTargets == {"spy", "spy_hz"} \cup PtyTargets
+
 (* ---------------------------- templates -------------------------------- *)
 (* The template families the drivers use (names shared with api.rs).       *)
 PMsg == [k |-> "msg"]
@@ -126,9 +133,9 @@ Apply(S, r) ==
         fin(how, m) == Res(Req(SetBar(S, b, FinishRec(B, how, m)), b), <<>>, vis, FALSE)
     IN
     CASE r.op = "new" ->
-            LET v == r.target \in {"spy", "spy_hz", "pty"} IN      \* "pty": a real console::Term on a pseudo-terminal
+            LET v == r.target \in VisibleTargets IN      \* PtyTargets: a real console::Term on a pseudo-terminal
             Plain([S EXCEPT !.bars = S.bars @@ (b :> NewBar(r, v, FALSE)), !.ids = S.ids \cup {b},
-                            !.order = IF v THEN Append(S.order, b) ELSE S.order, !.pty = r.target = "pty"])
+                            !.order = IF v THEN Append(S.order, b) ELSE S.order, !.pty = r.target \in PtyTargets])
       [] r.op \in {"add", "insert", "insert_from_back", "insert_before", "insert_after"} ->
             LET o == S.order
                 p == CASE r.op = "add" -> Len(o)
